@@ -6,32 +6,288 @@ package logger
 // This file holds only comments and is compiled only with -tags verif.
 //
 // C08, the logger registry: globalLoggers is only touched with globalLoggersLock held; NewLogger never
-// replaces a registered logger and changes no other entry; getLoggers hands out a fresh map and leaves the
-// registry untouched — for all interleavings of lock-respecting goroutines (monitor rule).
+// replaces a registered logger and changes no other entry; different names have different loggers (and different
+// underlying logrus loggers), each carrying its own name as scope; getLoggers hands out a fresh map holding
+// registered loggers only and leaves the registry untouched — for all interleavings of lock-respecting goroutines
+// (monitor rule).
+// C08, one logger: the only mutable field of a daprLogger, `logger`, is read and written with the logger's own lock
+// held (guard:read / guard:write obligations = "free of data races" for this field, which is the one the registry
+// exposes to ApplyOptionsToLoggers of other callers); each method writes nothing but that field of its own receiver
+// and the configuration of its own logrus logger.
 
 //@ globallock globalLoggersLock protects globalLoggers
 //@ globallockinv globalLoggersLock globalLoggers != nil
 //@ globallockinv globalLoggersLock forall k string :: haskey(globalLoggers, k) ==> globalLoggers[k] != nil
+// every registered logger is a daprLogger that exists
+//@ globallockinv globalLoggersLock forall k string :: haskey(globalLoggers, k) ==>
+//@     (typeis(globalLoggers[k], "*github.com/dapr/kit/logger.daprLogger")
+//@      && unbox(globalLoggers[k], "*github.com/dapr/kit/logger.daprLogger") != nil
+//@      && allocated(unbox(globalLoggers[k], "*github.com/dapr/kit/logger.daprLogger"))
+//@      && allocated(unbox(globalLoggers[k], "*github.com/dapr/kit/logger.daprLogger").lg))
+// separate names, separate loggers
+//@ globallockinv globalLoggersLock forall k1 string, k2 string ::
+//@     (haskey(globalLoggers, k1) && haskey(globalLoggers, k2) && k1 != k2) ==> globalLoggers[k1] != globalLoggers[k2]
+// ... that write to separate logrus loggers
+//@ globallockinv globalLoggersLock forall k1 string, k2 string ::
+//@     (haskey(globalLoggers, k1) && haskey(globalLoggers, k2) && k1 != k2) ==>
+//@     unbox(globalLoggers[k1], "*github.com/dapr/kit/logger.daprLogger").lg != unbox(globalLoggers[k2], "*github.com/dapr/kit/logger.daprLogger").lg
+// the scope of a registered logger is the name it is registered under
+//@ globallockinv globalLoggersLock forall k string :: haskey(globalLoggers, k) ==>
+//@     (unbox(globalLoggers[k], "*github.com/dapr/kit/logger.daprLogger").name == k
+//@      && typeis(unbox(globalLoggers[k], "*github.com/dapr/kit/logger.daprLogger").scope, "string")
+//@      && unbox(unbox(globalLoggers[k], "*github.com/dapr/kit/logger.daprLogger").scope, "string") == k)
 
+// lg: the logrus logger the daprLogger writes to; scope: the value of the "scope" field of its entries. Both are fixed
+// at construction: every entry the field `logger` ever holds belongs to lg and carries that scope.
+//@ type daprLogger
+//@   ghost lg ref
+//@   ghost scope iface
+//@   lock lock protects logger
+//@   lockinv lock [C08.dl.entry] self.logger != nil && self.logger.Logger != nil && self.logger.Logger == self.lg
+//@   lockinv lock allocated(self.logger) && allocated(self.logger.Data)
+//@   lockinv lock [C08.dl.scope] typeis(self.scope, "string") ==> self.logger.Data["scope"] == self.scope
+
+//@ func (*daprLogger).entry
+//@   tags C08 C07
+//@   requires l != nil
+//@   modifies nothing
+//@   ensures [C08.dl.entry.result] result != nil && result.Logger == l.lg && result.Logger != nil
+//@   ensures [C08.dl.entry.scope] typeis(l.scope, "string") ==> result.Data["scope"] == l.scope
+
+// The engine assumes a lock invariant at every acquisition but has no obligation for the moment a newly built
+// object is first shared: the three constructors of daprLogger state it as a postcondition ([C08.dl.new.inv]).
 //@ func newDaprLogger
-//@   tags C08
-//@   skip
+//@   tags C08 C07
 //@   modifies nothing
 //@   ensures result != nil && fresh(result)
+//@   ensures [C08.logger.scope] result.name == name
+//@   ensures [C08.logger.scope.field] typeis(result.scope, "string") && unbox(result.scope, "string") == name
+//@   ensures [C08.logger.own] fresh(result.lg)
+//@   at before call EnableJSONOutput#0 assert [C08.dl.new.inv] allocated(dl.logger) && allocated(dl.logger.Data) && dl.logger != nil && dl.logger.Logger != nil && dl.logger.Logger == dl.lg && dl.logger.Data["scope"] == dl.scope
+//@   at call WithFields#0 ghost dl.lg = res0.Logger
+//@   at call WithFields#0 ghost dl.scope = res0.Data["scope"]
+
+//@ func (*daprLogger).EnableJSONOutput
+//@   tags C08 C07
+//@   refines (github.com/dapr/kit/logger.Logger).EnableJSONOutput
+//@   requires l != nil
+//@   modifies l.logger, unbox(box(l.lg, "*github.com/sirupsen/logrus.Logger"), "*github.com/sirupsen/logrus.Logger").Formatter
+
+//@ func (*daprLogger).SetAppID
+//@   tags C08 C07
+//@   refines (github.com/dapr/kit/logger.Logger).SetAppID
+//@   requires l != nil
+//@   modifies l.logger
+
+//@ func toLogrusLevel
+//@   tags C08 C07
+//@   modifies nothing
+
+//@ func (*daprLogger).SetOutputLevel
+//@   tags C08 C07
+//@   refines (github.com/dapr/kit/logger.Logger).SetOutputLevel
+//@   requires l != nil
+//@   modifies unbox(box(l.lg, "*github.com/sirupsen/logrus.Logger"), "*github.com/sirupsen/logrus.Logger").Level
+
+//@ func (*daprLogger).IsOutputLevelEnabled
+//@   tags C08 C07
+//@   requires l != nil
+//@   modifies nothing
+
+//@ func (*daprLogger).SetOutput
+//@   tags C08 C07
+//@   requires l != nil
+//@   modifies unbox(box(l.lg, "*github.com/sirupsen/logrus.Logger"), "*github.com/sirupsen/logrus.Logger").Out
+
+// Derived loggers: a new object for the same logrus logger; the receiver is not written.
+//@ func (*daprLogger).WithLogType
+//@   tags C08 C07
+//@   requires l != nil
+//@   modifies nothing
+//@   ensures [C08.dl.derived] typeis(result, "*github.com/dapr/kit/logger.daprLogger") && fresh(unbox(result, "*github.com/dapr/kit/logger.daprLogger")) && unbox(result, "*github.com/dapr/kit/logger.daprLogger").name == l.name && unbox(result, "*github.com/dapr/kit/logger.daprLogger").lg == l.lg
+//@   ensures [C08.dl.new.inv] unbox(result, "*github.com/dapr/kit/logger.daprLogger").logger != nil && unbox(result, "*github.com/dapr/kit/logger.daprLogger").logger.Logger != nil && unbox(result, "*github.com/dapr/kit/logger.daprLogger").logger.Logger == unbox(result, "*github.com/dapr/kit/logger.daprLogger").lg && unbox(result, "*github.com/dapr/kit/logger.daprLogger").logger.Data["scope"] == unbox(result, "*github.com/dapr/kit/logger.daprLogger").scope
+//@   at return ghost unbox(result, "*github.com/dapr/kit/logger.daprLogger").lg = unbox(result, "*github.com/dapr/kit/logger.daprLogger").logger.Logger
+//@   at return ghost unbox(result, "*github.com/dapr/kit/logger.daprLogger").scope = unbox(result, "*github.com/dapr/kit/logger.daprLogger").logger.Data["scope"]
+
+//@ func (*daprLogger).WithFields
+//@   tags C08 C07
+//@   requires l != nil
+//@   modifies nothing
+//@   ensures [C08.dl.derived] typeis(result, "*github.com/dapr/kit/logger.daprLogger") && fresh(unbox(result, "*github.com/dapr/kit/logger.daprLogger")) && unbox(result, "*github.com/dapr/kit/logger.daprLogger").name == l.name && unbox(result, "*github.com/dapr/kit/logger.daprLogger").lg == l.lg
+//@   ensures [C08.dl.new.inv] unbox(result, "*github.com/dapr/kit/logger.daprLogger").logger != nil && unbox(result, "*github.com/dapr/kit/logger.daprLogger").logger.Logger != nil && unbox(result, "*github.com/dapr/kit/logger.daprLogger").logger.Logger == unbox(result, "*github.com/dapr/kit/logger.daprLogger").lg && unbox(result, "*github.com/dapr/kit/logger.daprLogger").logger.Data["scope"] == unbox(result, "*github.com/dapr/kit/logger.daprLogger").scope
+//@   at return ghost unbox(result, "*github.com/dapr/kit/logger.daprLogger").lg = unbox(result, "*github.com/dapr/kit/logger.daprLogger").logger.Logger
+//@   at return ghost unbox(result, "*github.com/dapr/kit/logger.daprLogger").scope = unbox(result, "*github.com/dapr/kit/logger.daprLogger").logger.Data["scope"]
+
+//@ func (*daprLogger).Info
+//@   tags C08 C07
+//@   requires l != nil
+//@   modifies nothing
+
+//@ func (*daprLogger).Infof
+//@   tags C08 C07
+//@   requires l != nil
+//@   modifies nothing
+
+//@ func (*daprLogger).Debug
+//@   tags C08 C07
+//@   requires l != nil
+//@   modifies nothing
+
+//@ func (*daprLogger).Debugf
+//@   tags C08 C07
+//@   requires l != nil
+//@   modifies nothing
+
+//@ func (*daprLogger).Warn
+//@   tags C08 C07
+//@   requires l != nil
+//@   modifies nothing
+
+//@ func (*daprLogger).Warnf
+//@   tags C08 C07
+//@   requires l != nil
+//@   modifies nothing
+
+//@ func (*daprLogger).Error
+//@   tags C08 C07
+//@   requires l != nil
+//@   modifies nothing
+
+//@ func (*daprLogger).Errorf
+//@   tags C08 C07
+//@   requires l != nil
+//@   modifies nothing
+
+//@ func (*daprLogger).Fatal
+//@   tags C08 C07
+//@   requires l != nil
+//@   modifies nothing
+
+//@ func (*daprLogger).Fatalf
+//@   tags C08 C07
+//@   requires l != nil
+//@   modifies nothing
+
+
+// ---- the registry ----
 
 //@ func NewLogger
 //@   tags C08 C07
+//@   modifies mapof(globalLoggers)
 //@   ensures [C08.logger.registered] at(U, haskey(globalLoggers, name)) && result == at(U, globalLoggers[name]) && result != nil
 //@   ensures [C08.logger.neverreplaced] at(L, haskey(globalLoggers, name)) ==> result == at(L, globalLoggers[name])
 //@   ensures [C08.logger.others] forall k string :: k != name ==> (at(U, haskey(globalLoggers, k)) == at(L, haskey(globalLoggers, k)) && at(U, globalLoggers[k]) == at(L, globalLoggers[k]))
+//@   ensures [C08.logger.scope.result] typeis(result, "*github.com/dapr/kit/logger.daprLogger") && unbox(result, "*github.com/dapr/kit/logger.daprLogger").name == name
+//@   ensures [C08.logger.distinct] forall k string :: (k != name && at(U, haskey(globalLoggers, k))) ==> result != at(U, globalLoggers[k])
+//@   ensures [C08.logger.distinct.sink] forall k string :: (k != name && at(U, haskey(globalLoggers, k))) ==> unbox(result, "*github.com/dapr/kit/logger.daprLogger").lg != unbox(at(U, globalLoggers[k]), "*github.com/dapr/kit/logger.daprLogger").lg
 //@   at call Lock#0 label L
 //@   at before call Unlock#0 label U
+
+// noKeys(): the value of the ghost set `seen` before the enumeration starts (an arbitrary set: only keys added later count)
+//@ pure func noKeys() [string]bool
 
 //@ func getLoggers
 //@   tags C08 C07
 //@   modifies nothing
 //@   ensures [C08.logger.copy] fresh(result) && result != nil
 //@   ensures [C08.logger.copy.pure] at(U, globalLoggers) == at(L, globalLoggers)
+//@   ensures [C08.logger.copy.subset] forall k string :: haskey(result, k) ==> (at(U, haskey(globalLoggers, k)) && result[k] == at(U, globalLoggers[k]))
+//@   ensures [C08.logger.copy.type] forall k string :: haskey(result, k) ==> (typeis(result[k], "*github.com/dapr/kit/logger.daprLogger") && unbox(result[k], "*github.com/dapr/kit/logger.daprLogger") != nil && unbox(result[k], "*github.com/dapr/kit/logger.daprLogger").name == k)
+//@   loop 0 invariant forall k string :: haskey(l, k) ==> (haskey(globalLoggers, k) && l[k] == globalLoggers[k])
+//@   loop 0 invariant forall k string :: haskey(globalLoggers, k) ==> (typeis(globalLoggers[k], "*github.com/dapr/kit/logger.daprLogger") && unbox(globalLoggers[k], "*github.com/dapr/kit/logger.daprLogger") != nil && unbox(globalLoggers[k], "*github.com/dapr/kit/logger.daprLogger").name == k)
+//@   loop 0 invariant forall k string :: haskey(l, k) ==> (typeis(l[k], "*github.com/dapr/kit/logger.daprLogger") && unbox(l[k], "*github.com/dapr/kit/logger.daprLogger") != nil && unbox(l[k], "*github.com/dapr/kit/logger.daprLogger").name == k)
+//@   loop 0 invariant globalLoggers == at(L, globalLoggers)
+// seen = the keys range has handed out so far; each of them has been copied
+//@   ghost seen [string]bool
+//@   at entry ghost seen = noKeys()
+//@   at next#0 ghost seen = res0 ? update(seen, res1, true) : seen
+//@   loop 0 invariant [C08.logger.copy.all] forall k string :: (seen[k] && !noKeys()[k]) ==> haskey(l, k)
+// Go's range over a map that is not modified meanwhile visits every key before it ends (the engine models each
+// iteration as "some key of the map"; completeness of the enumeration is this listed assumption).
+//@   at next#0 assume !res0 ==> (forall k string :: haskey(globalLoggers, k) ==> (seen[k] && !noKeys()[k]))
+//@   ensures [C08.logger.copy.all] forall k string :: at(U, haskey(globalLoggers, k)) ==> haskey(result, k)
 //@   loop 0 invariant l != nil && fresh(l) && heldr(globalLoggersLock)
 //@   at call RLock#0 label L
 //@   at before call RUnlock#0 label U
+
+// ApplyOptionsToLoggers is the one operation that reaches other callers' loggers through the registry. What it may
+// write: the `logger` field of daprLoggers (under each logger's own lock: guard:* obligations of SetAppID /
+// EnableJSONOutput) and the Formatter / Level configuration of logrus loggers (synchronised inside logrus) -- not the
+// registry, no logger's name, nothing of the caller's options.
+//@ func ApplyOptionsToLoggers
+//@   tags C08 C07
+//@   requires options != nil
+//@   modifies allof(unbox(box(0, "*github.com/dapr/kit/logger.daprLogger"), "*github.com/dapr/kit/logger.daprLogger").logger), allof(unbox(box(0, "*github.com/sirupsen/logrus.Logger"), "*github.com/sirupsen/logrus.Logger").Formatter), allof(unbox(box(0, "*github.com/sirupsen/logrus.Logger"), "*github.com/sirupsen/logrus.Logger").Level)
+//@   loop 0 invariant forall k string :: haskey(internalLoggers, k) ==> (typeis(internalLoggers[k], "*github.com/dapr/kit/logger.daprLogger") && unbox(internalLoggers[k], "*github.com/dapr/kit/logger.daprLogger") != nil)
+//@   loop 1 invariant forall k string :: haskey(internalLoggers, k) ==> (typeis(internalLoggers[k], "*github.com/dapr/kit/logger.daprLogger") && unbox(internalLoggers[k], "*github.com/dapr/kit/logger.daprLogger") != nil)
+
+//@ func toLogLevel
+//@   tags C08 C07
+//@   modifies nothing
+
+//@ func DefaultOptions
+//@   tags C08 C07
+//@   modifies nothing
+
+//@ func (*Options).SetAppID
+//@   tags C08 C07
+//@   requires o != nil
+//@   modifies o.appID
+
+//@ func (*Options).SetOutputLevel
+//@   tags C08 C07
+//@   requires o != nil
+//@   modifies o.OutputLevel
+
+// ---- nopLogger: the shared package-level defaultOpLogger has no state; none of its methods writes anything ----
+//@ func (*nopLogger).EnableJSONOutput
+//@   tags C08 C07
+//@   modifies nothing
+//@ func (*nopLogger).SetAppID
+//@   tags C08 C07
+//@   modifies nothing
+//@ func (*nopLogger).SetOutputLevel
+//@   tags C08 C07
+//@   modifies nothing
+//@ func (*nopLogger).SetOutput
+//@   tags C08 C07
+//@   modifies nothing
+//@ func (*nopLogger).IsOutputLevelEnabled
+//@   tags C08 C07
+//@   modifies nothing
+//@ func (*nopLogger).WithLogType
+//@   tags C08 C07
+//@   modifies nothing
+//@ func (*nopLogger).WithFields
+//@   tags C08 C07
+//@   modifies nothing
+//@ func (*nopLogger).Info
+//@   tags C08 C07
+//@   modifies nothing
+//@ func (*nopLogger).Infof
+//@   tags C08 C07
+//@   modifies nothing
+//@ func (*nopLogger).Debug
+//@   tags C08 C07
+//@   modifies nothing
+//@ func (*nopLogger).Debugf
+//@   tags C08 C07
+//@   modifies nothing
+//@ func (*nopLogger).Warn
+//@   tags C08 C07
+//@   modifies nothing
+//@ func (*nopLogger).Warnf
+//@   tags C08 C07
+//@   modifies nothing
+//@ func (*nopLogger).Error
+//@   tags C08 C07
+//@   modifies nothing
+//@ func (*nopLogger).Errorf
+//@   tags C08 C07
+//@   modifies nothing
+//@ func (*nopLogger).Fatal
+//@   tags C08 C07
+//@   modifies nothing
+//@ func (*nopLogger).Fatalf
+//@   tags C08 C07
+//@   modifies nothing
